@@ -81,6 +81,43 @@ def _rename_enum(e: Enum) -> None:
     e.members = [(n + "_R", v) for n, v in e.members]
 
 
+def rw_rename_collide(draw: Any, unit: Unit) -> Optional[str]:
+    """Give nested definitions that live in DIFFERENT, non-nested parent messages the same
+    short name (legal: names are per scope).  The same identifier text then denotes different
+    definitions in different scopes of one file; a rename must not change any byte."""
+    for f in draw(st.permutations(unit.files)):
+        cands = []
+        for m in iter_messages(f):
+            for it in m.nested():
+                cands.append(it)
+        if len(cands) < 2:
+            continue
+        picked: List[Any] = []
+        for d in draw(st.permutations(cands)):
+            anc = enclosing_messages(d)
+            ok = True
+            for q in picked:
+                qa = enclosing_messages(q)
+                # parents must not be the same scope nor ancestor-related, so no scope chain sees two of them
+                if qa[-1] is anc[-1] or qa[-1] in anc or anc[-1] in qa:
+                    ok = False
+            if ok:
+                picked.append(d)
+            if len(picked) >= 3:
+                break
+        if len(picked) < 2:
+            continue
+        new = _fresh(unit, "Kind")
+        # the new name must not be visible from any of the parents' scope chains already
+        for d in picked:
+            if isinstance(d, Enum):
+                d.name = new
+            else:
+                d.name = new
+        return "rename_collide"
+    return None
+
+
 def rw_permute_fields(draw: Any, unit: Unit) -> Optional[str]:
     msgs = [m for m in unit_messages(unit) if len(m.fields()) >= 2]
     if not msgs:
@@ -291,6 +328,7 @@ STYLE_REWRITES = ["style"]
 
 REWRITES: List[Callable[[Any, Unit], Optional[str]]] = [
     rw_rename,
+    rw_rename_collide,
     rw_permute_fields,
     rw_swap_defs,
     rw_intro_alias,
@@ -330,7 +368,7 @@ def apply_sequence(draw: Any, unit: Unit, msgs: List[Message], max_steps: int = 
         kind = rw(draw, trial)
         if kind is None:
             continue
-        ok = scoping.retext(trial) and scoping.names_unique(trial)
+        ok = scoping.retext(trial) and scoping.names_unique(trial) and scoping.unit_type_names_shadow_free(trial)
         if not ok:
             excluded["rewrite not applicable here (breaks declare-before-use)"] = excluded.get("rewrite not applicable here (breaks declare-before-use)", 0) + 1
             continue
